@@ -37,7 +37,7 @@ contract("C01.check_tag_is_deprecated", file=F, func="TagValidator.check_tag_is_
                   "C01.deprecated.is_warning": "all(result[k].code == 'ELEMENT_DEPRECATED' and result[k].severity == 10 for k in range(len(result)))"})
 
 contract("C01.check_for_placeholder", file=F, func="TagValidator.check_for_placeholder",
-         params={"original_tag": "HedTag", "is_definition": "Bool"}, returns="List[Issue]", enc="array",
+         params={"original_tag": "HedTag", "is_definition": "Bool"}, returns="List[Issue]", enc="array", also=["C12"],
          requires=[HEDTAG_LAYOUT,
                    "all(original_tag.tag[len(original_tag.org_base_tag) + 1 + j] == original_tag.extension[j]"
                    " for j in range(len(original_tag.extension)))"],
